@@ -1,1 +1,782 @@
-//! C19 harnesses (see /verif/tools/HARNESS_GUIDE.md).
+//! C19 — generators and collectors build exactly the requested sequence.
+//!
+//! Families (all lengths concrete, all values symbolic):
+//!   * `c19_range_*`     `Vec1Create::range` for i32 / i64 / usize / f64: as many elements as there are progression
+//!                       terms `start + k*step` strictly before `end` in the direction of the step, element k is
+//!                       `start + k*step`. "forward" = `end` lies in the direction of the step (or start == end),
+//!                       "backward" = `end` lies behind `start` (the progression is empty).
+//!   * `c19_linspace_*`  `Vec1Create::linspace`, n = 0..=5 concrete: n elements, first == start, element i ==
+//!                       start + step*i with step = (end-start)/(n-1) (the element type's own division: for integer
+//!                       element types that is the truncated quotient, so the last element is `end` only when n-1
+//!                       divides the span — the repository's own test expects linspace(1,4,3) == [1,2,3] for usize);
+//!                       for f64 the last element equals `end` within 1e-9 relative.
+//!   * `c19_full_empty_*` `Vec1::full(len, v)`, len = 0..=5, and `Vec1::empty()` for Vec, VecDeque, Array1.
+//!   * `c19_collect_*`   the six collectors into Vec / VecDeque / Array1 from sources of length 0..=4; fallible
+//!                       sources carry an error at every position of a symbolic mask; the error that comes back
+//!                       must be the one of the first masked position (`TError::IdxOut { idx, .. }` discriminates).
+//!   * `c19_write_*`     `WriteTrustIter::write` / `write_trust_iter` into a logging buffer (counts writes per
+//!                       slot) and into the real uninitialised buffers of Vec / VecDeque / Array1.
+use std::collections::VecDeque;
+
+use ndarray::Array1;
+use tea_core::prelude::*;
+
+use crate::util::*;
+
+// ---------------------------------------------------------------------------------------------
+// uniform read access to the three owning containers
+// ---------------------------------------------------------------------------------------------
+pub trait Out<T: Copy> {
+    fn olen(&self) -> usize;
+    fn oget(&self, i: usize) -> T;
+}
+impl<T: Copy> Out<T> for Vec<T> {
+    fn olen(&self) -> usize {
+        self.len()
+    }
+    fn oget(&self, i: usize) -> T {
+        self[i]
+    }
+}
+impl<T: Copy> Out<T> for VecDeque<T> {
+    fn olen(&self) -> usize {
+        self.len()
+    }
+    fn oget(&self, i: usize) -> T {
+        self[i]
+    }
+}
+impl<T: Copy> Out<T> for Array1<T> {
+    fn olen(&self) -> usize {
+        self.len()
+    }
+    fn oget(&self, i: usize) -> T {
+        self[i]
+    }
+}
+
+// ---------------------------------------------------------------------------------------------
+// range
+// ---------------------------------------------------------------------------------------------
+
+/// largest number of elements a quick-tier range harness lets the progression have
+#[cfg(not(feature = "thorough"))]
+pub const RANGE_CAP: i64 = 6;
+#[cfg(feature = "thorough")]
+pub const RANGE_CAP: i64 = 41;
+
+/// number of terms a + k*s (k = 0, 1, ...) lying strictly before b in the direction of s; plain loop.
+pub fn terms_before(a: i64, b: i64, s: i64) -> usize {
+    let mut want = 0usize;
+    let mut x = a;
+    while (s > 0 && x < b) || (s < 0 && x > b) {
+        want += 1;
+        x += s;
+    }
+    want
+}
+
+/// integer element types; the mode selects the region: `fwd_signed` / `fwd_unsigned` = end in the direction
+/// of the step (or equal to start), `bwd` = end behind start (the progression is empty).
+macro_rules! range_int {
+    (@covers fwd_signed $want:ident $span:ident $si:ident $mag:ident $smag:ident) => {
+        kani::cover!($want >= 2 && $span % $si != 0, "span not divisible by the step");
+        kani::cover!($want >= 2 && $span % $si == 0, "span divisible by the step");
+        kani::cover!($want == 0, "empty span (start == end)");
+        kani::cover!($si < 0 && $want >= 2, "negative step");
+    };
+    (@covers fwd_unsigned $want:ident $span:ident $si:ident $mag:ident $smag:ident) => {
+        kani::cover!($want >= 2 && $span % $si != 0, "span not divisible by the step");
+        kani::cover!($want >= 2 && $span % $si == 0, "span divisible by the step");
+        kani::cover!($want == 0, "empty span (start == end)");
+    };
+    (@covers bwd $want:ident $span:ident $si:ident $mag:ident $smag:ident) => {
+        kani::cover!($mag >= $smag, "end at least one step behind start");
+        kani::cover!($mag < $smag, "end less than one step behind start");
+    };
+    (@fwd fwd_signed) => { true };
+    (@fwd fwd_unsigned) => { true };
+    (@fwd bwd) => { false };
+    ($name:ident, $t:ty, $lo:expr, $mode:ident) => {
+        #[kani::proof]
+        #[kani::stub(std::fmt::format, crate::util::fmt_stub)]
+        #[cfg_attr(not(feature = "thorough"), kani::unwind(9))]
+        #[cfg_attr(feature = "thorough", kani::unwind(44))]
+        pub fn $name() {
+            const FWD: bool = range_int!(@fwd $mode);
+            let (a, b, s): ($t, $t, $t) = (kani::any(), kani::any(), kani::any());
+            kani::assume(a >= $lo && a <= 20 && b >= $lo && b <= 20 && s >= $lo && s <= 20 && s != 0);
+            let (ai, bi, si) = (a as i64, b as i64, s as i64);
+            let span = bi - ai;
+            let forward = span == 0 || ((span > 0) == (si > 0));
+            kani::assume(forward == FWD);
+            let mag = if span < 0 { -span } else { span };
+            let smag = if si < 0 { -si } else { si };
+            kani::assume(mag <= RANGE_CAP * smag);
+            let want = terms_before(ai, bi, si);
+            let v: Vec<$t> = Vec1Create::range(Some(a), b, Some(s));
+            if FWD {
+                assert!(v.len() == want, "range: as many elements as progression terms strictly before end");
+            } else {
+                assert!(want == 0, "oracle: a backward span has no progression term");
+                assert!(v.len() == 0, "range: empty when end lies behind start in the direction of the step");
+            }
+            let mut k = 0usize;
+            while k < v.len() && k < want {
+                assert!(v[k] as i64 == ai + (k as i64) * si, "range: element k is start + k*step");
+                k += 1;
+            }
+            range_int!(@covers $mode want span si mag smag);
+        }
+    };
+}
+
+range_int!(c19_range_i32_forward, i32, -20, fwd_signed);
+range_int!(c19_range_i32_backward, i32, -20, bwd);
+range_int!(c19_range_i64_forward, i64, -20, fwd_signed);
+range_int!(c19_range_i64_backward, i64, -20, bwd);
+range_int!(c19_range_usize_forward, usize, 0, fwd_unsigned);
+range_int!(c19_range_usize_backward, usize, 0, bwd);
+
+/// `start` omitted (defaults to zero) and `step` omitted (defaults to one)
+#[kani::proof]
+#[kani::stub(std::fmt::format, crate::util::fmt_stub)]
+#[kani::unwind(9)]
+pub fn c19_range_defaults_i32() {
+    let b: i32 = kani::any();
+    kani::assume(b >= 0 && b <= 6);
+    let v: Vec<i32> = Vec1Create::range(None, b, None);
+    assert!(v.len() == b as usize, "range(None, end, None): end elements");
+    let mut k = 0usize;
+    while k < v.len() {
+        assert!(v[k] == k as i32, "range(None, end, None): element k is k");
+        k += 1;
+    }
+    kani::cover!(b == 6, "six elements");
+    kani::cover!(b == 0, "no element");
+}
+
+/// f64 with small-integer start/end and step in {±0.5, ±1, ±1.5, ±2}; both regions in one harness (the
+/// float-to-usize cast saturates at 0, so a backward span is expected to give the empty vector).
+fn range_f64_law(opt_elem: bool) {
+    let (a, b) = (small_i32(-20, 20), small_i32(-20, 20));
+    let h: i32 = kani::any(); // step in half units
+    kani::assume(h >= -4 && h <= 4 && h != 0);
+    let step = (h as f64) * 0.5;
+    let (a2, b2, s2) = (2 * a as i64, 2 * b as i64, h as i64);
+    let span = b2 - a2;
+    let mag = if span < 0 { -span } else { span };
+    let smag = if s2 < 0 { -s2 } else { s2 };
+    kani::assume(mag <= RANGE_CAP * smag);
+    let want = terms_before(a2, b2, s2);
+    let (af, bf) = (a as f64, b as f64);
+    if opt_elem {
+        let v: Vec<Option<f64>> = Vec1Create::range(Some(af), bf, Some(step));
+        assert!(v.len() == want, "range<Option<f64>>: as many elements as progression terms strictly before end");
+        let mut k = 0usize;
+        while k < v.len() && k < want {
+            assert!(v[k] == Some(af + step * (k as f64)), "range<Option<f64>>: element k is Some(start + k*step)");
+            k += 1;
+        }
+    } else {
+        let v: Vec<f64> = Vec1Create::range(Some(af), bf, Some(step));
+        assert!(v.len() == want, "range<f64>: as many elements as progression terms strictly before end");
+        let mut k = 0usize;
+        while k < v.len() && k < want {
+            assert!(v[k] == af + step * (k as f64), "range<f64>: element k is start + k*step");
+            // the progression is exact in f64 for these inputs: compare against the integer oracle too
+            assert!(v[k] * 2.0 == (a2 + (k as i64) * s2) as f64, "range<f64>: element k equals the exact progression term");
+            k += 1;
+        }
+    }
+    let forward = span == 0 || ((span > 0) == (s2 > 0));
+    kani::cover!(forward && want >= 2 && span % s2 != 0, "span not divisible by the step");
+    kani::cover!(forward && want >= 2 && span % s2 == 0, "span divisible by the step");
+    kani::cover!(forward && s2 < 0 && want >= 2, "negative step");
+    kani::cover!(!forward && mag >= smag, "end at least one step behind start: empty");
+    kani::cover!(span == 0, "start == end: empty");
+}
+
+#[kani::proof]
+#[kani::stub(std::fmt::format, crate::util::fmt_stub)]
+#[cfg_attr(not(feature = "thorough"), kani::unwind(9))]
+#[cfg_attr(feature = "thorough", kani::unwind(44))]
+pub fn c19_range_f64() {
+    range_f64_law(false)
+}
+
+#[cfg(feature = "thorough")]
+#[kani::proof]
+#[kani::stub(std::fmt::format, crate::util::fmt_stub)]
+#[kani::unwind(44)]
+pub fn c19_range_opt_f64() {
+    range_f64_law(true)
+}
+
+// ---------------------------------------------------------------------------------------------
+// linspace
+// ---------------------------------------------------------------------------------------------
+
+fn linspace_f64_law<const N: usize>() -> bool {
+    let (a, b) = (small_i32(-20, 20), small_i32(-20, 20));
+    let (af, bf) = (a as f64, b as f64);
+    let v: Vec<f64> = Vec1Create::linspace(Some(af), bf, N);
+    assert!(v.len() == N, "linspace<f64>: n elements");
+    if N >= 1 {
+        assert!(v[0] == af, "linspace<f64>: first element is start");
+    }
+    let step = if N > 1 { (bf - af) / ((N - 1) as f64) } else { 0.0 };
+    let mut i = 0usize;
+    while i < N {
+        assert!(v[i] == af + step * (i as f64), "linspace<f64>: element i is start + i*step (constant step)");
+        i += 1;
+    }
+    if N >= 2 {
+        let last = v[N - 1];
+        let d = if last > bf { last - bf } else { bf - last };
+        let m = if bf < 0.0 { -bf } else { bf };
+        let scale = if m > 1.0 { m } else { 1.0 };
+        assert!(d <= 1e-9 * scale, "linspace<f64>: last element is end up to rounding");
+        // increasing endpoints give a non-decreasing sequence
+        if a < b {
+            assert!(v[0] < v[N - 1], "linspace<f64>: increasing endpoints, increasing sequence");
+        }
+    }
+    a > b
+}
+
+macro_rules! linspace_f64 {
+    ($($name:ident: $n:expr),* $(,)?) => {$(
+        #[kani::proof]
+        #[kani::stub(std::fmt::format, crate::util::fmt_stub)]
+        #[kani::unwind(8)]
+        pub fn $name() {
+            let dec = linspace_f64_law::<$n>();
+            kani::cover!(dec, "decreasing endpoints");
+            kani::cover!(!dec, "non-decreasing endpoints");
+        }
+    )*};
+}
+linspace_f64!(c19_linspace_f64_n2: 2, c19_linspace_f64_n3: 3, c19_linspace_f64_n4: 4, c19_linspace_f64_n5: 5);
+
+#[kani::proof]
+#[kani::stub(std::fmt::format, crate::util::fmt_stub)]
+#[kani::unwind(4)]
+pub fn c19_linspace_f64_n0_n1() {
+    linspace_f64_law::<0>();
+    let dec = linspace_f64_law::<1>();
+    kani::cover!(dec, "decreasing endpoints");
+}
+
+/// `start` omitted defaults to zero (also into the Option element type)
+#[kani::proof]
+#[kani::stub(std::fmt::format, crate::util::fmt_stub)]
+#[kani::unwind(8)]
+pub fn c19_linspace_default_start_opt_f64_n3() {
+    let b = small_i32(-20, 20);
+    let bf = b as f64;
+    let v: Vec<Option<f64>> = Vec1Create::linspace(None, bf, 3);
+    assert!(v.len() == 3, "linspace(None, end, 3): three elements");
+    assert!(v[0] == Some(0.0), "linspace(None, ..): starts at zero");
+    assert!(v[1] == Some(0.0 + (bf - 0.0) / 2.0 * 1.0), "linspace(None, end, 3): midpoint");
+    assert!(v[2] == Some(bf), "linspace(None, end, 3): ends at end");
+    kani::cover!(b < 0, "negative end");
+}
+
+/// integer element types: the same formula with the type's own (truncating) division
+macro_rules! linspace_int_law {
+    ($fname:ident, $t:ty, $lo:expr) => {
+        fn $fname<const N: usize>() {
+            let (a, b): ($t, $t) = (kani::any(), kani::any());
+            kani::assume(a >= $lo && a <= 20 && b >= $lo && b <= 20);
+            if $lo == 0 {
+                // unsigned element type: a decreasing linspace needs a negative step that the type cannot
+                // represent (b - a underflows); outside the domain (DESIGN 5.6)
+                kani::assume(a <= b);
+            }
+            let v: Vec<$t> = Vec1Create::linspace(Some(a), b, N);
+            assert!(v.len() == N, "linspace<int>: n elements");
+            if N >= 1 {
+                assert!(v[0] == a, "linspace<int>: first element is start");
+            }
+            let (ai, bi) = (a as i64, b as i64);
+            let step = if N > 1 { (bi - ai) / ((N - 1) as i64) } else { 0 };
+            let mut i = 0usize;
+            while i < N {
+                assert!(v[i] as i64 == ai + step * (i as i64), "linspace<int>: element i is start + i*trunc((end-start)/(n-1))");
+                i += 1;
+            }
+            if N >= 2 {
+                if (bi - ai) % ((N - 1) as i64) == 0 {
+                    assert!(v[N - 1] == b, "linspace<int>: last element is end when n-1 divides the span");
+                }
+                // never beyond end
+                if ai <= bi {
+                    assert!(v[N - 1] <= b, "linspace<int>: last element not beyond end (increasing)");
+                } else {
+                    assert!(v[N - 1] >= b, "linspace<int>: last element not beyond end (decreasing)");
+                }
+            }
+        }
+    };
+}
+linspace_int_law!(linspace_i32_law, i32, -20);
+linspace_int_law!(linspace_usize_law, usize, 0);
+
+#[kani::proof]
+#[kani::stub(std::fmt::format, crate::util::fmt_stub)]
+#[kani::unwind(8)]
+pub fn c19_linspace_i32_n0_to_n5() {
+    linspace_i32_law::<0>();
+    linspace_i32_law::<1>();
+    linspace_i32_law::<2>();
+    linspace_i32_law::<3>();
+    linspace_i32_law::<4>();
+    linspace_i32_law::<5>();
+}
+
+#[kani::proof]
+#[kani::stub(std::fmt::format, crate::util::fmt_stub)]
+#[kani::unwind(8)]
+pub fn c19_linspace_usize_n0_to_n5() {
+    linspace_usize_law::<0>();
+    linspace_usize_law::<1>();
+    linspace_usize_law::<2>();
+    linspace_usize_law::<3>();
+    linspace_usize_law::<4>();
+    linspace_usize_law::<5>();
+}
+
+// ---------------------------------------------------------------------------------------------
+// full / empty
+// ---------------------------------------------------------------------------------------------
+
+fn full_law<O: Vec1<i32> + Out<i32>, const N: usize>() {
+    let x: i32 = kani::any();
+    let o: O = Vec1::full(N, x);
+    assert!(o.olen() == N, "full: len elements");
+    assert!(GetLen::len(&o) == N, "full: GetLen agrees");
+    let mut i = 0usize;
+    while i < N {
+        assert!(o.oget(i) == x, "full: every element is the value");
+        i += 1;
+    }
+}
+
+fn full_opt_law<O: Vec1<Option<i32>> + Out<Option<i32>>, const N: usize>() {
+    let x: Option<i32> = kani::any();
+    let o: O = Vec1::full(N, x);
+    assert!(o.olen() == N, "full<Option>: len elements");
+    let mut i = 0usize;
+    while i < N {
+        assert!(o.oget(i) == x, "full<Option>: every element is the value");
+        i += 1;
+    }
+}
+
+fn empty_law<O: Vec1<i32> + Out<i32>>() {
+    let e: O = Vec1::empty();
+    assert!(e.olen() == 0, "empty: no element");
+    assert!(GetLen::len(&e) == 0, "empty: GetLen is zero");
+}
+
+macro_rules! full_h {
+    ($($name:ident: $o:ty, $p:ty, [$($n:expr),*], [$($m:expr),*], $unw:expr);* $(;)?) => {$(
+        #[kani::proof]
+        #[kani::stub(std::fmt::format, crate::util::fmt_stub)]
+        #[kani::unwind($unw)]
+        pub fn $name() {
+            empty_law::<$o>();
+            $( full_law::<$o, $n>(); )*
+            $( full_opt_law::<$p, $m>(); )*
+        }
+    )*};
+}
+
+full_h!(
+    c19_full_empty_vec_n0_to_n5: Vec<i32>, Vec<Option<i32>>, [0, 1, 2, 3, 4, 5], [0, 3, 5], 8;
+    c19_full_empty_vecdeque_n0_to_n2: VecDeque<i32>, VecDeque<Option<i32>>, [0, 1, 2], [2], 5;
+    c19_full_empty_vecdeque_n3_to_n5: VecDeque<i32>, VecDeque<Option<i32>>, [3, 4, 5], [], 8;
+    c19_full_empty_array1_n0_to_n2: Array1<i32>, Array1<Option<i32>>, [0, 1, 2], [2], 5;
+    c19_full_empty_array1_n3_n4: Array1<i32>, Array1<Option<i32>>, [3, 4], [], 7;
+    c19_full_empty_array1_n5: Array1<i32>, Array1<Option<i32>>, [5], [], 8;
+);
+
+/// full with the float null keeps the null (NaN) in every slot
+#[kani::proof]
+#[kani::stub(std::fmt::format, crate::util::fmt_stub)]
+#[kani::unwind(8)]
+pub fn c19_full_nan_vec_n5() {
+    let v: Vec<f64> = Vec1::full(5, f64::NAN);
+    assert!(v.len() == 5, "full(5, NaN): five elements");
+    let mut i = 0usize;
+    while i < 5 {
+        assert!(v[i].is_nan(), "full(5, NaN): every element is NaN");
+        i += 1;
+    }
+}
+
+// ---------------------------------------------------------------------------------------------
+// collectors
+// ---------------------------------------------------------------------------------------------
+
+macro_rules! same {
+    ($o:expr, $x:expr, $n:expr, $mlen:literal, $melt:literal) => {{
+        assert!($o.olen() == $n, $mlen);
+        let mut i = 0usize;
+        while i < $n {
+            assert!($o.oget(i) == $x[i], $melt);
+            i += 1;
+        }
+    }};
+}
+
+/// infallible collectors of i32 items
+fn collect_plain_law<O: Vec1<i32> + Out<i32>, const N: usize>() {
+    let x: [i32; N] = kani::any();
+    let o: O = x.iter().cloned().collect_vec1();
+    same!(o, x, N, "collect_vec1: length preserved", "collect_vec1: order and content preserved");
+    let o: O = x.iter().cloned().collect_trusted_vec1();
+    same!(o, x, N, "collect_trusted_vec1: length preserved", "collect_trusted_vec1: order and content preserved");
+    // an iterator without a usable size hint (filter) collected with the explicit length
+    let o: O = x.iter().cloned().filter(|_| true).collect_vec1_with_len(N);
+    same!(o, x, N, "collect_vec1_with_len: length preserved", "collect_vec1_with_len: order and content preserved");
+}
+
+/// Option items into a null-encoded container of Option<i32> (None -> None, Some(v) -> v)
+fn collect_opt_law<O: Vec1<Option<i32>> + Out<Option<i32>>, const N: usize>() -> bool {
+    let x: [Option<Option<i32>>; N] = kani::any();
+    let o: O = x.iter().cloned().collect_vec1_opt();
+    assert!(o.olen() == N, "collect_vec1_opt<Option<i32>>: length preserved");
+    let mut saw_none = false;
+    let mut i = 0usize;
+    while i < N {
+        match x[i] {
+            None => {
+                saw_none = true;
+                assert!(o.oget(i).is_none(), "collect_vec1_opt<Option<i32>>: None becomes the null");
+            },
+            Some(v) => assert!(o.oget(i) == v, "collect_vec1_opt<Option<i32>>: Some(v) becomes v"),
+        }
+        i += 1;
+    }
+    saw_none
+}
+
+/// Option<f64> items into a container of f64 (None -> NaN)
+fn collect_opt_f64_law<O: Vec1<f64> + Out<f64>, const N: usize>() -> bool {
+    let mut x: [Option<f64>; N] = [None; N];
+    let mut i = 0usize;
+    while i < N {
+        if kani::any() {
+            x[i] = Some(small_i32(-9, 9) as f64);
+        }
+        i += 1;
+    }
+    let o: O = x.iter().cloned().collect_vec1_opt();
+    assert!(o.olen() == N, "collect_vec1_opt<f64>: length preserved");
+    let mut saw_none = false;
+    let mut i = 0usize;
+    while i < N {
+        match x[i] {
+            None => {
+                saw_none = true;
+                assert!(o.oget(i).is_nan(), "collect_vec1_opt<f64>: None becomes NaN");
+            },
+            Some(v) => assert!(o.oget(i) == v, "collect_vec1_opt<f64>: Some(v) becomes v"),
+        }
+        i += 1;
+    }
+    saw_none
+}
+
+/// fallible collectors: item i is Err(IdxOut { idx: i, len: N }) wherever mask[i]; the first masked position
+/// must be the error that comes back, otherwise Ok with the items in order.
+fn collect_try_law<O: Vec1<i32> + Out<i32>, const N: usize>(trusted: bool) -> (bool, bool) {
+    let x: [i32; N] = kani::any();
+    let mask: [bool; N] = kani::any();
+    let mut first = N; // N = no error
+    let mut nerr = 0usize;
+    let mut i = N;
+    while i > 0 {
+        i -= 1;
+        if mask[i] {
+            first = i;
+            nerr += 1;
+        }
+    }
+    let src = x.iter().enumerate().map(|(i, v)| if mask[i] { Err(TError::IdxOut { idx: i, len: N }) } else { Ok(*v) });
+    let r: TResult<O> = if trusted { src.try_collect_trusted_vec1() } else { src.try_collect_vec1() };
+    match r {
+        Ok(o) => {
+            assert!(first == N, "try_collect: Ok only when no item is an error");
+            same!(o, x, N, "try_collect: length preserved", "try_collect: order and content preserved");
+            std::mem::forget(o);
+        },
+        Err(e) => {
+            assert!(first < N, "try_collect: Err only when some item is an error");
+            match &e {
+                TError::IdxOut { idx, len } => {
+                    assert!(*idx == first, "try_collect: the first error is returned");
+                    assert!(*len == N, "try_collect: the error is passed through unchanged");
+                },
+                _ => assert!(false, "try_collect: the error keeps its variant"),
+            }
+            std::mem::forget(e);
+        },
+    }
+    (nerr >= 2, first == N)
+}
+
+/// infallible collectors + the trusted fallible collector, one source length
+fn collect_infallible_all<O, P, F, const N: usize>() -> (bool, bool, bool)
+where
+    O: Vec1<i32> + Out<i32>,
+    P: Vec1<Option<i32>> + Out<Option<i32>>,
+    F: Vec1<f64> + Out<f64>,
+{
+    collect_plain_law::<O, N>();
+    let none1 = collect_opt_law::<P, N>();
+    let none2 = collect_opt_f64_law::<F, N>();
+    let (two, ok) = collect_try_law::<O, N>(true);
+    (none1 && none2, two, ok)
+}
+
+macro_rules! collect_h {
+    (@covers c0 $r:ident) => {
+        kani::cover!($r.2, "try_collect_trusted_vec1: no error item");
+    };
+    (@covers c1 $r:ident) => {
+        kani::cover!($r.0, "a None item");
+        kani::cover!(!$r.2, "try_collect_trusted_vec1: an error item");
+        kani::cover!($r.2, "try_collect_trusted_vec1: no error item");
+    };
+    (@covers c2 $r:ident) => {
+        collect_h!(@covers c1 $r);
+        kani::cover!($r.1, "try_collect_trusted_vec1: two error items (first one must win)");
+    };
+    ($($(#[$m:meta])* $name:ident: $o:ty, $p:ty, $f:ty, $n:expr, $c:ident, $unw:expr);* $(;)?) => {$(
+        $(#[$m])*
+        #[kani::proof]
+        #[kani::stub(std::fmt::format, crate::util::fmt_stub)]
+        #[kani::unwind($unw)]
+        pub fn $name() {
+            let r = collect_infallible_all::<$o, $p, $f, $n>();
+            collect_h!(@covers $c r);
+        }
+    )*};
+}
+
+collect_h!(
+    c19_collect_vec_n0: Vec<i32>, Vec<Option<i32>>, Vec<f64>, 0, c0, 3;
+    c19_collect_vec_n1: Vec<i32>, Vec<Option<i32>>, Vec<f64>, 1, c1, 3;
+    c19_collect_vec_n2: Vec<i32>, Vec<Option<i32>>, Vec<f64>, 2, c2, 4;
+    c19_collect_vec_n3: Vec<i32>, Vec<Option<i32>>, Vec<f64>, 3, c2, 5;
+    c19_collect_vec_n4: Vec<i32>, Vec<Option<i32>>, Vec<f64>, 4, c2, 6;
+    c19_collect_vecdeque_n0: VecDeque<i32>, VecDeque<Option<i32>>, VecDeque<f64>, 0, c0, 3;
+    #[cfg(feature = "thorough")] c19_collect_vecdeque_n1: VecDeque<i32>, VecDeque<Option<i32>>, VecDeque<f64>, 1, c1, 3;
+    c19_collect_vecdeque_n2: VecDeque<i32>, VecDeque<Option<i32>>, VecDeque<f64>, 2, c2, 4;
+    #[cfg(feature = "thorough")] c19_collect_vecdeque_n3: VecDeque<i32>, VecDeque<Option<i32>>, VecDeque<f64>, 3, c2, 5;
+    c19_collect_vecdeque_n4: VecDeque<i32>, VecDeque<Option<i32>>, VecDeque<f64>, 4, c2, 6;
+    #[cfg(feature = "thorough")] c19_collect_array1_n0: Array1<i32>, Array1<Option<i32>>, Array1<f64>, 0, c0, 3;
+    c19_collect_array1_n1: Array1<i32>, Array1<Option<i32>>, Array1<f64>, 1, c1, 3;
+    #[cfg(feature = "thorough")] c19_collect_array1_n2: Array1<i32>, Array1<Option<i32>>, Array1<f64>, 2, c2, 4;
+    #[cfg(feature = "thorough")] c19_collect_array1_n3: Array1<i32>, Array1<Option<i32>>, Array1<f64>, 3, c2, 5;
+    c19_collect_array1_n4: Array1<i32>, Array1<Option<i32>>, Array1<f64>, 4, c2, 6;
+);
+
+/// the untrusted fallible collector (`Result<_, _>: FromIterator` underneath) is by far the most expensive
+/// piece for CBMC (nested short-circuiting adaptor loops): own harness per container and length.
+macro_rules! try_collect_h {
+    (@covers c0 $two:ident $ok:ident) => {
+        kani::cover!($ok, "try_collect_vec1: no error item");
+    };
+    (@covers c1 $two:ident $ok:ident) => {
+        kani::cover!($ok, "try_collect_vec1: no error item");
+        kani::cover!(!$ok, "try_collect_vec1: an error item");
+    };
+    (@covers c2 $two:ident $ok:ident) => {
+        try_collect_h!(@covers c1 $two $ok);
+        kani::cover!($two, "try_collect_vec1: two error items (first one must win)");
+    };
+    ($($(#[$m:meta])* $name:ident: $o:ty, $n:expr, $c:ident, $unw:expr);* $(;)?) => {$(
+        $(#[$m])*
+        #[kani::proof]
+        #[kani::stub(std::fmt::format, crate::util::fmt_stub)]
+        #[kani::unwind($unw)]
+        pub fn $name() {
+            let (two, ok) = collect_try_law::<$o, $n>(false);
+            try_collect_h!(@covers $c two ok);
+        }
+    )*};
+}
+
+try_collect_h!(
+    c19_try_collect_vec_n0: Vec<i32>, 0, c0, 3;
+    c19_try_collect_vec_n1: Vec<i32>, 1, c1, 3;
+    c19_try_collect_vec_n2: Vec<i32>, 2, c2, 4;
+    #[cfg(feature = "thorough")] c19_try_collect_vec_n3: Vec<i32>, 3, c2, 5;
+    c19_try_collect_vec_n4: Vec<i32>, 4, c2, 6;
+    c19_try_collect_vecdeque_n2: VecDeque<i32>, 2, c2, 4;
+    c19_try_collect_array1_n2: Array1<i32>, 2, c2, 4;
+    #[cfg(feature = "thorough")] c19_try_collect_vecdeque_n0: VecDeque<i32>, 0, c0, 3;
+    #[cfg(feature = "thorough")] c19_try_collect_vecdeque_n1: VecDeque<i32>, 1, c1, 3;
+    #[cfg(feature = "thorough")] c19_try_collect_vecdeque_n3: VecDeque<i32>, 3, c2, 5;
+    #[cfg(feature = "thorough")] c19_try_collect_vecdeque_n4: VecDeque<i32>, 4, c2, 6;
+    #[cfg(feature = "thorough")] c19_try_collect_array1_n0: Array1<i32>, 0, c0, 3;
+    #[cfg(feature = "thorough")] c19_try_collect_array1_n1: Array1<i32>, 1, c1, 3;
+    #[cfg(feature = "thorough")] c19_try_collect_array1_n3: Array1<i32>, 3, c2, 5;
+    #[cfg(feature = "thorough")] c19_try_collect_array1_n4: Array1<i32>, 4, c2, 6;
+);
+
+// ---------------------------------------------------------------------------------------------
+// write_trust_iter
+// ---------------------------------------------------------------------------------------------
+
+/// An `UninitRefMut` that counts the writes per slot (the trait is public, so any out-buffer type may be
+/// handed to `WriteTrustIter::write`); an out-of-range slot index is a harness failure.
+pub struct LogBuf<const N: usize> {
+    pub cnt: [u8; N],
+    pub val: [i32; N],
+}
+
+impl<const N: usize> GetLen for LogBuf<N> {
+    fn len(&self) -> usize {
+        N
+    }
+}
+
+impl<const N: usize> UninitRefMut<i32> for LogBuf<N> {
+    unsafe fn uset(&mut self, idx: usize, v: i32) {
+        assert!(idx < N, "write_trust_iter: slot index within the buffer");
+        self.cnt[idx] += 1;
+        self.val[idx] = v;
+    }
+}
+
+/// what slot i must hold after writing an iterator of M items into N slots
+fn want_at<const N: usize, const M: usize>(y: &[i32; M], i: usize) -> i32 {
+    let ys: &[i32] = y;
+    if M == N { ys[i] } else { ys[0] }
+}
+
+/// buffer of N slots against an iterator of M items
+fn write_law<const N: usize, const M: usize>() {
+    let y: [i32; M] = kani::any();
+    let must_fill = N == 0 || M == N || M == 1;
+    // (1) logging buffer, through WriteTrustIter::write
+    let mut lb = LogBuf::<N> { cnt: [0; N], val: [0; N] };
+    let r = y.iter().cloned().write(&mut lb);
+    match r {
+        Ok(()) => {
+            assert!(must_fill, "write: a length mismatch (iterator neither 1 nor len items) is reported");
+            let mut i = 0usize;
+            while i < N {
+                assert!(lb.cnt[i] == 1, "write: every slot written exactly once");
+                assert!(lb.val[i] == want_at::<N, M>(&y, i), "write: slot i holds item i (or the single item)");
+                i += 1;
+            }
+        },
+        Err(e) => {
+            assert!(!must_fill, "write: no error when the lengths agree or a single item is broadcast");
+            let mut i = 0usize;
+            while i < N {
+                assert!(lb.cnt[i] == 0, "write: no slot touched when the length mismatch is reported");
+                i += 1;
+            }
+            std::mem::forget(e);
+        },
+    }
+    // (2) the real uninitialised buffers, through UninitRefMut::write_trust_iter
+    let mut buf = <Vec<i32> as Vec1<i32>>::uninit(N);
+    let r = Vec::<i32>::uninit_ref_mut(&mut buf).write_trust_iter(y.iter().cloned());
+    match r {
+        Ok(()) => {
+            assert!(must_fill, "write(Vec): a length mismatch is reported");
+            let v: Vec<i32> = unsafe { buf.assume_init() };
+            assert!(v.len() == N, "write(Vec): buffer keeps its length");
+            let mut i = 0usize;
+            while i < N {
+                assert!(v[i] == want_at::<N, M>(&y, i), "write(Vec): slot i holds item i (or the single item)");
+                i += 1;
+            }
+        },
+        Err(e) => {
+            assert!(!must_fill, "write(Vec): no error when the lengths agree or a single item is broadcast");
+            std::mem::forget(e);
+        },
+    }
+}
+
+fn write_law_deque<const N: usize, const M: usize>() {
+    let y: [i32; M] = kani::any();
+    let must_fill = N == 0 || M == N || M == 1;
+    let mut buf = <VecDeque<i32> as Vec1<i32>>::uninit(N);
+    let r = y.iter().cloned().write(&mut VecDeque::<i32>::uninit_ref_mut(&mut buf));
+    match r {
+        Ok(()) => {
+            assert!(must_fill, "write(VecDeque): a length mismatch is reported");
+            let v: VecDeque<i32> = unsafe { buf.assume_init() };
+            assert!(v.len() == N, "write(VecDeque): buffer keeps its length");
+            let mut i = 0usize;
+            while i < N {
+                assert!(v[i] == want_at::<N, M>(&y, i), "write(VecDeque): slot i holds item i (or the single item)");
+                i += 1;
+            }
+        },
+        Err(e) => {
+            assert!(!must_fill, "write(VecDeque): no error when the lengths agree or a single item is broadcast");
+            std::mem::forget(e);
+        },
+    }
+}
+
+fn write_law_array<const N: usize, const M: usize>() {
+    let y: [i32; M] = kani::any();
+    let must_fill = N == 0 || M == N || M == 1;
+    let mut buf = <Array1<i32> as Vec1<i32>>::uninit(N);
+    let r = y.iter().cloned().write(&mut Array1::<i32>::uninit_ref_mut(&mut buf));
+    match r {
+        Ok(()) => {
+            assert!(must_fill, "write(Array1): a length mismatch is reported");
+            let v: Array1<i32> = unsafe { UninitVec::assume_init(buf) };
+            assert!(v.len() == N, "write(Array1): buffer keeps its length");
+            let mut i = 0usize;
+            while i < N {
+                assert!(v[i] == want_at::<N, M>(&y, i), "write(Array1): slot i holds item i (or the single item)");
+                i += 1;
+            }
+        },
+        Err(e) => {
+            assert!(!must_fill, "write(Array1): no error when the lengths agree or a single item is broadcast");
+            std::mem::forget(e);
+        },
+    }
+}
+
+macro_rules! write_h {
+    ($($(#[$m:meta])* $name:ident: $law:ident, [$(($n:expr, $k:expr)),*]);* $(;)?) => {$(
+        $(#[$m])*
+        #[kani::proof]
+        #[kani::stub(std::fmt::format, crate::util::fmt_stub)]
+        #[kani::unwind(7)]
+        pub fn $name() {
+            // (buffer length, iterator length): iterators of length 0, 1, len, one shorter, one longer
+            $( $law::<$n, $k>(); )*
+        }
+    )*};
+}
+
+write_h!(
+    c19_write_log_vec_n0_n1: write_law, [(0, 0), (0, 1), (0, 2), (1, 0), (1, 1), (1, 2)];
+    c19_write_log_vec_n2: write_law, [(2, 0), (2, 1), (2, 2), (2, 3)];
+    c19_write_log_vec_n3: write_law, [(3, 0), (3, 1), (3, 2), (3, 3), (3, 4)];
+    c19_write_log_vec_n4: write_law, [(4, 0), (4, 1), (4, 3), (4, 4), (4, 5)];
+    c19_write_vecdeque_n3: write_law_deque, [(3, 0), (3, 1), (3, 2), (3, 3), (3, 4)];
+    c19_write_array1_n3: write_law_array, [(3, 0), (3, 1), (3, 2), (3, 3), (3, 4)];
+    #[cfg(feature = "thorough")] c19_write_log_vec_n4_other: write_law, [(4, 2), (3, 5), (2, 4), (2, 5), (1, 3), (1, 5), (0, 5)];
+    #[cfg(feature = "thorough")] c19_write_vecdeque_n0_to_n2: write_law_deque, [(0, 0), (0, 1), (0, 2), (1, 0), (1, 1), (1, 2), (2, 0), (2, 1), (2, 2), (2, 3)];
+    #[cfg(feature = "thorough")] c19_write_vecdeque_n4: write_law_deque, [(4, 0), (4, 1), (4, 3), (4, 4), (4, 5)];
+    #[cfg(feature = "thorough")] c19_write_array1_n0_to_n2: write_law_array, [(0, 0), (0, 1), (0, 2), (1, 0), (1, 1), (1, 2), (2, 0), (2, 1), (2, 2), (2, 3)];
+    #[cfg(feature = "thorough")] c19_write_array1_n4: write_law_array, [(4, 0), (4, 1), (4, 3), (4, 4), (4, 5)];
+);
